@@ -17,9 +17,10 @@ ASSUMPTIONS = ['an unfinished request is one whose process is, in truth, not yet
                'the requester still sees the target RUNNING',
                'the STOP strategy clause "the application is then stopped" is not decided here (see C09/C06)']
 FLOORS = {'quick': {'start_emissions': 1500, 'process_order_checks': 1000, 'automatic_emissions': 600,
-                    'skip_checks': 200, 'required_failures': 20},
+                    'skip_checks': 200, 'required_failures': 20, 'restart_sequence_refused_jobs_in_progress': 60},
           'thorough': {'start_emissions': 40000, 'process_order_checks': 25000, 'automatic_emissions': 15000,
-                       'skip_checks': 5000, 'required_failures': 500}}
+                       'skip_checks': 5000, 'required_failures': 500,
+                       'restart_sequence_refused_jobs_in_progress': 1000}}
 COUNT = {'quick': 480, 'thorough': 12000}
 BUDGET_S = {'quick': 55, 'thorough': 540}
 
@@ -31,14 +32,33 @@ KNOBS = {'n_min': 1, 'n_max': 4,
          'disable_p': 0.1, 'crash_on_request_p': 0.06}
 
 
+# an additional family: supvisors.restart_sequence is requested on an instance while another instance is in the middle
+# of a (slow) start sequence requested by the user - it is refused, or at least it does not interleave with it
+CONCURRENT_KNOBS = {'n_min': 2, 'n_max': 4,
+                    'apps': {'n_apps': (1, 2), 'n_progs': (2, 4), 'seq_max': 3, 'startsecs': (4, 12),
+                             'per_instance_diff': 0.0, 'managed_p': 1.0, 'autorestart': ('false',)},
+                    'behaviours': ['normal'],
+                    'actions': ['restart_application', 'start_application', 'stop_application'],
+                    'then': ['restart_sequence', 'restart_sequence'], 'n_actions': [1, 2],
+                    'gaps': [0.3, 1.0, 3.0, 6.0, 10.0], 'early_p': 0.0}
+CONCURRENT_COUNT = {'quick': 200, 'thorough': 3000}
+
+
 def plan(tier, seed):
-    return [{'seed': seed * 1000003 + i} for i in range(COUNT[tier])]
+    return [{'seed': seed * 1000003 + i} for i in range(COUNT[tier])] + \
+        [{'seed': seed * 1000003 + 800000 + i, 'family': 'concurrent-restart-sequence'}
+         for i in range(CONCURRENT_COUNT[tier])]
 
 
 def run_case(case):
     tracker = Tracker()
     mon = StartSequenceMonitor(tracker)
-    run = Run(case, KNOBS, [tracker, mon])
+    run = Run(case, CONCURRENT_KNOBS if case.get('family') == 'concurrent-restart-sequence' else KNOBS,
+              [tracker, mon])
     violations = run.execute()
+    for action in run.actions:
+        if action['kind'] == 'restart_sequence' and isinstance(action.get('res'), tuple):
+            refused = action['res'][0] != 'ok' and 'jobs in progress' in str(action['res'])
+            run.count('restart_sequence_refused_jobs_in_progress' if refused else 'restart_sequence_other_outcomes')
     return {'violations': violations, 'counters': run.counters,
             'signature': run.shape() if getattr(mon, 'nontrivial', False) else None, 'sample': run.describe()}
